@@ -346,12 +346,19 @@ func runC05(c *Ctx) {
 				call, ok := x.Tuple.(*ssa.Call)
 				return ok && x.Index == 0 && callTo(m)(call)
 			case *ssa.Phi:
+				// (nil is what the error exits of a written-out fetch helper
+				// leave in its result variable: no slice of another origin)
+				some := false
 				for _, e := range x.Edges {
+					if ir.IsNil(e) {
+						continue
+					}
 					if !whole(e, m, d+1) {
 						return false
 					}
+					some = true
 				}
-				return len(x.Edges) > 0
+				return some
 			case *ssa.UnOp:
 				// a local cell: every store into it
 				if a, ok := x.X.(*ssa.Alloc); ok && x.Op == token.MUL {
